@@ -291,3 +291,28 @@ def oversize_result_handled(which, big: bool, how: int, c0: int, c1: int, c2: in
 
 SCN["oversize_result_handled"] = (["0 <= how < 2"], 300, 900, ("quick", "thorough"))
 scn.__dict__["oversize_result_handled"] = oversize_result_handled
+
+
+def odd_task_replies(which, kind: int, c0: int, c1: int, c2: int, c3: int):
+    """A Task's processor answers oddly: errorMessage is a JSON object (kind 0) / null (kind 1), or a stray message
+    without a correlation id lands on the reply queue before the real reply (kind 2).  The reply listener must not
+    raise (an exception there unwinds into EventDispatcher.start and stops the engine): the Task fails with the
+    reported error name, or - kind 2 - completes with the real reply."""
+    kind = cint(kind, 0, 2)
+    asl = {"StartAt": "T", "States": {"T": task("f", ResultPath="$.t", Next="Z"), "Z": {"Type": "Pass", "End": True}}}
+
+    def w(req):
+        if kind == 0:
+            return {"errorType": "Boom", "errorMessage": {"code": 42}}
+        if kind == 1:
+            return {"errorType": "Boom", "errorMessage": None}
+        m = sim.Message('{"stray": true}')
+        m.message_id = "stray"
+        sim.BROKER.publish("asl_workflow_reply_to-i1", m)
+        return {"ok": 1}
+    expect = ("SUCCEEDED", {"x": 1, "t": {"ok": 1}}) if kind == 2 else ("FAILED", "Boom")
+    return _run(asl, {"x": 1}, [c0, c1, c2, c3], {"f": w}, which, "STANDARD", expect, max_steps=60)
+
+
+SCN["odd_task_replies"] = (["0 <= kind < 3"], 300, 900, ("quick", "thorough"))
+scn.__dict__["odd_task_replies"] = odd_task_replies
